@@ -944,7 +944,7 @@ func c03Run(c *Case) {
 func init() {
 	register(&Prop{
 		ID: "C03", Level: "fault_enumeration",
-		Rule:          "fault enumeration per generated value stream (1-6 values: arrays, objects, scalars, separators none/space/newline/CRLF/tab): 12 chunk plans on the intact stream (1 byte per read, 2, 7, whole, random partitions with (0,nil) reads, final (n,EOF) or (0,EOF)) which must all agree; EVERY truncation point; a reader error injected at EVERY offset twice, as (0,err) and as (n>0,err); EVERY single-byte deletion plus sampled substitutions and insertions of structural and control bytes (0x00, 0x0B, 0x0C, 0x1C-0x1F, 0x7F, 0x85, 0xA0); 29 fixed streams from the property (stray closers, garbage between values, touching values, BOM, form feed). Oracle: a hand-written stream splitter gives the complete values and whether the rest is clean/truncated/damaged; expected output = reference model on those values; outcome must be ok for a clean stream and a JSON error naming the file otherwise; the reader/writer ledger checks at every Read call that every value handed out together with one further byte already has its output written. Streams with one value of 4 KiB - 1 MiB (string, array, object; first / in the middle / last) among small ones under 5 read plans (all at once, one value per read, 64 KiB / 4 KiB / random blocks). 3 programs that keep every root (BEGINFILE / rules / ENDFILE) x 8 streams of several top-level arrays and objects: a kept value is not disturbed by later values; 14 program shapes (no rules, BEGIN only, END only, function only, body-less pattern, ...) x 14 streams: a damaged stream is a JSON error whatever the program looks like. Binary level: the stream fed chunk by chunk on stdin or (every third case) through a named pipe given as a file argument; after each chunk the process is observed waiting for input via /proc (blocked in read(0), or for the named pipe: all threads asleep and no CPU time used between two observations) and the output due so far must be on the pipe; a regular file followed by a named pipe without a writer (the first file's output must be written while the process sleeps waiting for the pipe; the pipe's values follow when it is fed); directory and /proc/self/mem as input; EIO injected with strace on read 1, 2, 3 of a file. Non-trivial = stream with >= 2 values; distinct by (stream, damage kind, position).",
+		Rule:          "fault enumeration per generated value stream (1-6 values: arrays, objects, scalars, separators none/space/newline/CRLF/tab): 12 chunk plans on the intact stream (1 byte per read, 2, 7, whole, random partitions with (0,nil) reads, final (n,EOF) or (0,EOF)) which must all agree; EVERY truncation point; a reader error injected at EVERY offset twice, as (0,err) and as (n>0,err); EVERY single-byte deletion plus sampled substitutions and insertions of structural and control bytes (0x00, 0x0B, 0x0C, 0x1C-0x1F, 0x7F, 0x85, 0xA0); 29 fixed streams from the property (stray closers, garbage between values, touching values, BOM, form feed). Oracle: a hand-written stream splitter gives the complete values and whether the rest is clean/truncated/damaged; expected output = reference model on those values; outcome must be ok for a clean stream and a JSON error naming the file otherwise; the reader/writer ledger checks at every Read call that every value handed out together with one further byte already has its output written. Streams with one value of 4 KiB - 1 MiB (string, array, object; first / in the middle / last) among small ones under 5 read plans (all at once, one value per read, 64 KiB / 4 KiB / random blocks). 3 programs that keep every root (BEGINFILE / rules / ENDFILE) x 8 streams of several top-level arrays and objects: a kept value is not disturbed by later values; 14 program shapes (no rules, BEGIN only, END only, function only, body-less pattern, ...) x 14 streams: a damaged stream is a JSON error whatever the program looks like. Binary level: the stream fed chunk by chunk on stdin or (every third case) through a named pipe given as a file argument; after each chunk the process is observed waiting for input via /proc (blocked in read(0), or for the named pipe: all threads asleep and no CPU time used between two observations) and the output due so far must be on the pipe; a regular file followed by a named pipe without a writer (the first file's output must be written while the process sleeps waiting for the pipe; the pipe's values follow when it is fed); directory and /proc/self/mem as input; EIO injected with strace on read 1, 2, 3 of a file. Non-trivial = stream with >= 2 values; distinct by (stream, damage kind, position). In a quarter of the binary cases standard output is a regular file.",
 		NumCases:      c03Cases,
 		Run:           c03Run,
 		MinConclusive: func(tier string) int { return 50000 },
